@@ -112,24 +112,27 @@ def maxLenFor (addr : Nat) (next : Option Nat) : Nat :=
   | none => u32Max - addr + 1
   | some n => n - addr
 
+/-- second half of `Context::change_segment`: with the previous region closed, test whether `addr` is
+occupied (`output.find(addr, Above)`), else `make_active(addr, next)` -/
+def openSegment (s : State) (addr : Nat) : State × Out :=
+  match Map.find s.map addr .above with
+  | .panic => (s, .panic)
+  | .ok next =>
+    match next with
+    | some (n, _) =>
+      if n ≤ addr then (s, .diag (.occupied addr))
+      else ({ s with active := some ⟨addr, [], maxLenFor addr (some n)⟩ }, .ok)
+    | none => ({ s with active := some ⟨addr, [], maxLenFor addr none⟩ }, .ok)
+
 /-- `Context::change_segment` -/
 def changeSegment (s : State) (addr : Nat) : State × Out :=
-  let go (s : State) : State × Out :=
-    match Map.find s.map addr .above with
-    | .panic => (s, .panic)
-    | .ok next =>
-      match next with
-      | some (n, _) =>
-        if n ≤ addr then (s, .diag (.occupied addr))
-        else ({ s with active := some ⟨addr, [], maxLenFor addr (some n)⟩ }, .ok)
-      | none => ({ s with active := some ⟨addr, [], maxLenFor addr none⟩ }, .ok)
   match s.active with
   | some seg =>
     if addr = seg.base ∧ seg.buf.isEmpty then (s, .ok)
     else match closeSegment s with
-      | (s', .ok) => go s'
+      | (s', .ok) => openSegment s' addr
       | r => r
-  | none => go s
+  | none => openSegment s addr
 
 /-- the target choice of `write_instr` / `write_data` for a statement with `placed = true` -/
 def rewrite (s : State) (addr : Nat) (d : List UInt8) : State × Out :=
